@@ -54,11 +54,44 @@ pub trait VecZnxToRef {
 pub trait VecZnxToMut {
     spec fn smut_n(&self) -> usize; spec fn smut_cols(&self) -> usize; spec fn smut_size(&self) -> usize; spec fn smut_wf(&self) -> bool;
     spec fn smut_limb(&self, i: int, j: int) -> Seq<i64>;
+    // identity of the underlying buffer borrow (for views: the final contents of the borrowed bytes); never changed by any operation
+    #[verifier::prophetic]
+    spec fn smut_fut(&self) -> Seq<u8>;
     fn to_mut(&mut self) -> (r: VecZnx<&mut [u8]>)
       ensures r.n == old(self).smut_n(), r.cols == old(self).smut_cols(), r.size == old(self).smut_size(), r.wf() == old(self).smut_wf(),
         forall|i: int, j: int| #[trigger] r.limb(i, j) == old(self).smut_limb(i, j),
         // write-through: after the borrow ends the owner shows what the view holds
         final(self).smut_n() == old(self).smut_n(), final(self).smut_cols() == old(self).smut_cols(), final(self).smut_size() == old(self).smut_size(),
-        final(self).smut_wf() == old(self).smut_wf(),
+        final(self).smut_wf() == old(self).smut_wf(), final(self).smut_fut() == old(self).smut_fut(),
         forall|i: int, j: int| #[trigger] final(self).smut_limb(i, j) == limb_of(v64(final(r.data)@), r.n as int, r.cols as int, i, j);
+}
+// views are themselves owners (the real crate has `impl<D: DataMut> VecZnxToMut for VecZnx<D>`): re-borrowing a view
+#[verifier::external_body]
+pub fn reborrow_ref<'b>(v: &'b VecZnx<&[u8]>) -> (r: VecZnx<&'b [u8]>) ensures r == *v { unimplemented!() }
+impl<'a> VecZnxToRef for VecZnx<&'a [u8]> {
+    open spec fn sref(&self) -> VecZnx<&[u8]> { *self }
+    fn to_ref(&self) -> (r: VecZnx<&[u8]>) { reborrow_ref(self) }
+}
+impl<'a> VecZnxToMut for VecZnx<&'a mut [u8]> {
+    open spec fn smut_n(&self) -> usize { self.n }
+    open spec fn smut_cols(&self) -> usize { self.cols }
+    open spec fn smut_size(&self) -> usize { self.size }
+    open spec fn smut_wf(&self) -> bool { self.wf() }
+    open spec fn smut_limb(&self, i: int, j: int) -> Seq<i64> { self.limb(i, j) }
+    #[verifier::prophetic]
+    open spec fn smut_fut(&self) -> Seq<u8> { final(self.data)@ }
+    #[verifier::external_body]
+    fn to_mut(&mut self) -> (r: VecZnx<&mut [u8]>) { unimplemented!() }
+}
+// L-layout: a limb block of a well-formed VecZnx lies inside the buffer and has n elements
+pub proof fn lemma_limb_len<D: I64View>(v: VecZnx<D>, i: int, j: int)
+    requires v.wf(), 0 <= i < v.cols, 0 <= j < v.size
+    ensures v.limb(i, j).len() == v.n, 0 <= v.n * (j * v.cols + i), v.n * (j * v.cols + i) + v.n <= v.data.view64().len()
+{
+    let n = v.n as int; let c = v.cols as int; let s = v.size as int;
+    assert(j * c + i + 1 <= s * c) by (nonlinear_arith) requires 0 <= i < c, 0 <= j < s;
+    assert(n * (j * c + i) + n == n * (j * c + i + 1)) by (nonlinear_arith);
+    assert(n * (j * c + i + 1) <= n * (s * c)) by (nonlinear_arith) requires j * c + i + 1 <= s * c, n >= 0;
+    assert(n * (s * c) == n * c * s) by (nonlinear_arith);
+    assert(0 <= n * (j * c + i)) by (nonlinear_arith) requires n >= 0, i >= 0, j >= 0, c >= 0;
 }
